@@ -598,7 +598,7 @@ class ValidGen:
             self.oneof[n] = one
             fs = []
             for j in range(r.randint(1, 3)):
-                if self.inputs and r.random() < 0.45:
+                if self.inputs and r.random() < 0.45 and not (one and j == 0):
                     k = r.randrange(len(self.inputs))
                     t = tn(self.inputs[k])
                     shape = r.random()
@@ -795,7 +795,8 @@ class ValidGen:
         known = ctx is None or idx < ctx
         fs = self.in_fields[n]
         if self.oneof[n]:
-            f = r.choice(fs)
+            # the first field of a OneOf type is leaf-typed (possibly a list): recursion always ends
+            f = r.choice(fs) if depth > 0 else fs[0]
             return ["obj", [[f["name"], self.lit(f["type"], ctx, depth - 1, True)]]]
         kvs = []
         for f in fs:
@@ -1471,6 +1472,7 @@ class Runner:
         self.ck = ck
         self.cases = []     # (origin, info, D, ob, wire)
         self.groups = {}    # violation group -> (size, key, what, replay)
+        self.nsample = {}
 
     def add_built(self, origin, info, schema, S=None):
         ck = self.ck
@@ -1549,9 +1551,11 @@ class Runner:
             masked = 92 in mk
             mk -= {92}
             nontriv = bool(mk) or len(D["types"]) > 6
+            self.nsample[origin] = self.nsample.get(origin, 0) + 1
             ck.note_case(("schema", origin, w), nontrivial=nontriv,
-                         sample={"origin": origin, "label": info.get("label"), "sdl": info.get("sdl"),
-                                 "model_kinds": replay["model_kinds"]} if ck.rng.random() < 0.002 else None)
+                         sample={"origin": origin, "label": info.get("label"),
+                                 "sdl": info.get("sdl") or to_sdl(D),
+                                 "model_kinds": replay["model_kinds"]} if self.nsample[origin] in (3, 40) else None)
             ck.count(f"origin:{origin}")
             ck.count("model_valid" if not mk else "model_invalid")
             for k in mk:
@@ -1561,11 +1565,14 @@ class Runner:
             label = info.get("label", "")
             if ob["raised"] is not None:
                 sites = sorted(default_sites(D)) or ["nested-input-field"]
-                g = "raises:" + "+".join(sites) if masked else "raises:other"
-                self.group(g, size, f"validate_schema-raises:{'+'.join(sites) if masked else h}",
-                           f"validate_schema raised {ob['raised']} instead of returning errors "
-                           f"(default value at {'/'.join(sites)} whose type is not an input type); "
-                           f"graphql_sync: {ob['sync']}; expected rule kinds {replay['model_kinds']}", replay)
+                if not masked:
+                    sites = ["other:" + h]
+                for site in sites:
+                    self.group("raises:" + site, size + (0 if len(sites) == 1 else 10 ** 6),
+                               f"validate_schema-raises:{site}",
+                               f"validate_schema raised {ob['raised']} instead of returning errors "
+                               f"(default value at {site} position whose type is not an input type); "
+                               f"graphql_sync: {ob['sync']}; expected rule kinds {replay['model_kinds']}", replay)
                 ck.count("impl_raised")
                 continue
             kinds, uncl = set(), []
@@ -1681,6 +1688,26 @@ def run(tier):
     for i in range(n_raw):
         S = random_raw(r)
         rn.add_abstract(S, "grammar-random", r, sdl=True, prog=(i % 3 == 0))
+    # SDL documents that the SDL pre-validation rejects (or that do not build at all): not constructible
+    noise = ["type T0 { f: Int }", "extend type Nope { f: Int }", "type Z { f: Missing }",
+             "type Z { f: Int f: Int }", "enum Z { A A }", "directive @d0 on FIELD\ndirective @d0 on FIELD"]
+    for i in range(n_raw // 10):
+        S = random_raw(r)
+        text = to_sdl(S)
+        if text is None:
+            continue
+        text += r.choice(noise) + "\n"
+        for av in (True, False):
+            try:
+                sch = build_schema(text, assume_valid_sdl=av)
+            except (TypeError, GraphQLError):
+                ck.count("noise_sdl_rejected" if not av else "noise_sdl_not_buildable")
+                continue
+            except Exception as e:  # noqa: BLE001
+                ck.count(f"noise_sdl_build_raised:{type(e).__name__}")
+                continue
+            rn.add_built("sdl-noise" if av else "sdl-noise-prevalidated",
+                         {"label": "grammar-random+noise", "sdl": text, "assume_valid_sdl": av}, sch)
     rn.finish(m)
     return ck.finish()
 
